@@ -463,6 +463,21 @@ pub fn c10_case(ctx: &mut Ctx, rng: &mut Rng) {
                     *m = d;
                     format!("matrix.def: {w}")
                 }
+                ConnTexts::Bigram { right, left, cost, .. } if rng.chance(0.15) => {
+                    // every row of one or both side files loses its features (`id<TAB>` rows)
+                    let strip = |d: &Vec<u8>| -> Vec<u8> { String::from_utf8_lossy(d).lines().map(|l| format!("{}\t\n", l.split('\t').next().unwrap_or(""))).collect::<String>().into_bytes() };
+                    let k = rng.below(3);
+                    if k != 1 {
+                        *right = strip(right);
+                    }
+                    if k != 0 {
+                        *left = strip(left);
+                    }
+                    if rng.chance(0.5) {
+                        cost.clear();
+                    }
+                    format!("bigram side files: all rows made feature-less (variant {k})")
+                }
                 ConnTexts::Bigram { right, left, cost, .. } => match rng.below(3) {
                     0 => {
                         let (d, w) = mutate_text(rng, right, &['\t', ',']);
@@ -941,7 +956,19 @@ pub fn c20_case(ctx: &mut Ctx, rng: &mut Rng) {
     let nleft = 2 + rng.below(5);
     let right_ids = gen_ids(rng, nright); // right-id.def: right id of the LEFT word -> %L templates
     let left_ids = gen_ids(rng, nleft);
-    let idfile = |v: &Vec<Vec<String>>| -> String { v.iter().enumerate().map(|(i, f)| format!("{i} {}\n", f.join(","))).collect() };
+    // MeCab writes the id tables in ascending order, but nothing in the format requires it
+    let shuffle_lines = rng.chance(0.3);
+    let perm_seed = rng.next();
+    let idfile = |v: &Vec<Vec<String>>| -> String {
+        let mut lines: Vec<String> = v.iter().enumerate().map(|(i, f)| format!("{i} {}\n", f.join(","))).collect();
+        if shuffle_lines {
+            Rng(perm_seed ^ v.len() as u64).shuffle(&mut lines);
+        }
+        lines.concat()
+    };
+    if shuffle_lines {
+        ctx.bucket("id_table_lines_not_in_ascending_order");
+    }
     let factor = *rng.pick(&[1.0f64, 10.0, 700.0, 0.5]);
     // model.def
     let mut model = String::new();
@@ -979,7 +1006,9 @@ pub fn c20_case(ctx: &mut Ctx, rng: &mut Rng) {
     let cj = |d: String| json!({"feature.def": fd, "right-id.def": idfile(&right_ids), "left-id.def": idfile(&left_ids), "model.def": model, "cost_factor": factor, "detail": d});
     // ---- error cases: gap, malformed id line, id 0 not BOS/EOS
     if rng.chance(0.2) {
-        let (mut rtxt, ltxt) = (idfile(&right_ids), idfile(&left_ids));
+        // the error cases are built from tables in ascending order
+        let sorted = |v: &Vec<Vec<String>>| -> String { v.iter().enumerate().map(|(i, f)| format!("{i} {}\n", f.join(","))).collect() };
+        let (mut rtxt, ltxt) = (sorted(&right_ids), sorted(&left_ids));
         let kind = rng.below(3);
         match kind {
             0 => {
@@ -1094,6 +1123,15 @@ pub fn c10_witnesses(ctx: &mut Ctx) {
         match build_from_texts(b"a,0,0,0,A\n", b"DEFAULT 0 1 0\n", b"DEFAULT,0,0,100,U\n", &conn) {
             BuildOutcome::Panic(p) => ctx.violation("builder_panicked", "C10:witness:empty-bigram-files", format!("empty bigram.right/left/cost (dual={dual}): {p}"), json!({"bigram.right": "", "bigram.left": "", "bigram.cost": "", "dual": dual})),
             _ => ctx.bucket("witness_empty_bigram_files_no_panic"),
+        }
+    }
+    // rows without any feature in both side files
+    for dual in [false, true] {
+        ctx.eval();
+        let conn = ConnTexts::Bigram { right: b"1\t\n2\t\n".to_vec(), left: b"1\t\n".to_vec(), cost: vec![], dual };
+        match build_from_texts(b"a,1,2,0,A\n", b"DEFAULT 0 1 0\n", b"DEFAULT,0,0,100,U\n", &conn) {
+            BuildOutcome::Panic(p) => ctx.violation("builder_panicked", "C10:witness:feature-less-bigram-rows", format!("bigram.right `1<TAB>`,`2<TAB>` / bigram.left `1<TAB>` (dual={dual}): {p}"), json!({"bigram.right": "1\t\n2\t\n", "bigram.left": "1\t\n", "bigram.cost": "", "dual": dual})),
+            _ => ctx.bucket("witness_feature_less_bigram_rows_no_panic"),
         }
     }
     // a lexicon ending right after the cost field's comma
